@@ -46,8 +46,11 @@ def gen_history(rng, max_n=12, max_ops=40):
         elif r < 0.85 and n > 0:
             mode = rng.random()
             ops.append(("tell", mode, rng.randrange(1 << 30), rng.randrange(-1000, 1000)))
-        elif r < 0.95:
+        elif r < 0.93:
             ops.append(("remove_unfinished",))
+        elif r < 0.97 and n > 0:
+            # the way BalancingLearner uses a child: ask(.., tell_pending=False), then an explicit tell_pending
+            ops.append(("peek_mark", rng.choice([1, 1, 2, 3]), rng.randrange(1 << 30)))
         else:
             ops.append(("ask", rng.randrange(0, n + 3), False))
     return {"n": n, "kind": kind, "ops": ops, "seq_seed": rng.randrange(1 << 30)}
@@ -128,6 +131,26 @@ def execute(hist, check=None):
             l.remove_unfinished()
             outstanding.clear()
             lines.append("seq remove_unfinished")
+            outs.append("ok " + obs_impl(l, n))
+        elif op[0] == "peek_mark":
+            _, k, pick = op
+            pts, imps = l.ask(k, tell_pending=False)
+            if check:
+                check("ask", l=l, seq=seq, told=told, outstanding=outstanding, k=k, commit=False, pts=pts, imps=imps)
+            lines.append(f"seq ask {k} 0")
+            outs.append("pts=" + ",".join(str(i) for i, _ in pts) + " " + obs_impl(l, n))
+            if pts:
+                i, el = pts[pick % len(pts)]
+            else:  # nothing left to hand out: mark an element without result (possibly already pending)
+                cand = [j for j in range(n) if j not in told]
+                if not cand:
+                    continue
+                i = cand[pick % len(cand)]
+                el = seq[i]
+            l.tell_pending((i, el))
+            if i not in outstanding:
+                outstanding.append(i)
+            lines.append(f"seq tell_pending {i}")
             outs.append("ok " + obs_impl(l, n))
         if check:
             check("after", l=l, seq=seq, told=told, outstanding=outstanding)
@@ -293,7 +316,7 @@ def run(ctx):
         trusted=core.COMMON_TRUSTED + ["hand-written model lean/AdaptiveModel/Seq.lean (tied by correspondence)",
                                        "sortedcontainers SortedSet/SortedDict ordering"],
         assumptions=["tells carry an index < len(sequence) (the property's quantifier)",
-                     "tell_pending is reached only through ask (as a runner does)"],
+                     "explicit tell_pending only of elements without a result"],
     )
 
 
